@@ -373,36 +373,78 @@ func c21FilterNodes(p *Prog, r *Result, F *FuncNode) {
 		at = rs
 		elem := F.objOf(rs.Value)
 		why = ""
-		guard, app := false, false
-		for _, st := range rs.Body.List {
-			switch s := st.(type) {
-			case *ast.IfStmt:
-				as, ok := s.Init.(*ast.AssignStmt)
-				if ok && len(as.Lhs) == 2 && len(as.Rhs) == 1 && exprStr(s.Cond) == exprStr(as.Lhs[1]) && s.Else == nil && len(s.Body.List) == 1 {
-					base, idx := indexBaseObj(F, as.Rhs[0])
-					sel, ok2 := unparen(idx).(*ast.SelectorExpr)
-					if br, ok3 := s.Body.List[0].(*ast.BranchStmt); ok3 && br.Tok == token.CONTINUE && base == exSet && ok2 && F.objOf(sel.X) == elem && sel.Sel.Name == "Name" {
-						guard = true
-						continue
-					}
-				}
-				why = "the exclude test is not `if _, ok := excludes[n.Name]; ok { continue }` on the node's own name"
-			case *ast.AssignStmt:
-				if c, ok := unparen(s.Rhs[0]).(*ast.CallExpr); ok {
-					if id, ok := c.Fun.(*ast.Ident); ok && id.Name == "append" && len(c.Args) == 2 && F.objOf(c.Args[0]) == ns && F.objOf(c.Args[1]) == elem && guard {
-						app = true
-						continue
-					}
-				}
-				if why == "" {
-					why = "unexpected assignment in the exclude loop"
-				}
-			default:
-				why = fmt.Sprintf("unexpected %T in the exclude loop", st)
+		// the single `ns = append(ns, n)` of the loop, reached exactly when the membership test on n.Name says "absent"
+		var apps []*ast.AssignStmt
+		otherWrite := false
+		ast.Inspect(rs.Body, func(x ast.Node) bool {
+			as, ok := x.(*ast.AssignStmt)
+			if !ok {
+				return true
 			}
-		}
-		if why == "" && (!guard || !app) {
+			for i, l := range as.Lhs {
+				if F.objOf(l) != ns {
+					continue
+				}
+				isApp := false
+				if len(as.Rhs) == len(as.Lhs) {
+					if c, ok := unparen(as.Rhs[i]).(*ast.CallExpr); ok {
+						if id, ok := c.Fun.(*ast.Ident); ok && id.Name == "append" && len(c.Args) == 2 && F.objOf(c.Args[0]) == ns && F.objOf(c.Args[1]) == elem && !c.Ellipsis.IsValid() {
+							isApp = true
+						}
+					}
+				}
+				if isApp {
+					apps = append(apps, as)
+				} else {
+					otherWrite = true
+				}
+			}
+			return true
+		})
+		switch {
+		case otherWrite:
+			why = "the result list is written in the exclude loop by something other than `ns = append(ns, n)`"
+		case len(apps) != 1:
 			why = "a listed node is not appended exactly when its name is absent from the exclude set"
+		}
+		if why == "" {
+			conds, ok := pathConds(rs.Body, apps[0])
+			// membership flags: `_, ok := excludes[n.Name]` (in an if's init or as a statement of the loop)
+			member := map[types.Object]bool{}
+			ast.Inspect(rs.Body, func(x ast.Node) bool {
+				as, isAs := x.(*ast.AssignStmt)
+				if !isAs || len(as.Lhs) != 2 || len(as.Rhs) != 1 || as.Tok != token.DEFINE {
+					return true
+				}
+				base, idx := indexBaseObj(F, as.Rhs[0])
+				sel, ok2 := unparen(idx).(*ast.SelectorExpr)
+				if base == exSet && ok2 && F.objOf(sel.X) == elem && sel.Sel.Name == "Name" {
+					if o := F.objOf(as.Lhs[1]); o != nil {
+						member[o] = true
+					}
+				}
+				return true
+			})
+			switch {
+			case !ok:
+				why = "the append of a listed node is nested in something other than if/else: the rule cannot tell when it runs"
+			case len(conds) != 1:
+				why = "the exclude test is not a single membership test `_, ok := excludes[n.Name]` on the node's own name guarding the append"
+			default:
+				e, pos := unparen(conds[0].Expr), conds[0].Pos
+				for {
+					u, isNot := e.(*ast.UnaryExpr)
+					if !isNot || u.Op != token.NOT {
+						break
+					}
+					e, pos = unparen(u.X), !pos
+				}
+				if !member[F.objOf(e)] {
+					why = "the exclude test is not `if _, ok := excludes[n.Name]; ok { continue }` on the node's own name"
+				} else if pos {
+					why = "a listed node is appended when its name IS in the exclude set, and dropped otherwise"
+				}
+			}
 		}
 		return true
 	})
